@@ -37,10 +37,39 @@ pub struct TestBed {
     pub fail_dir: PathBuf,
 }
 
+/// Installs the in-process rsync (hook H10) for all beds of this process:
+/// the bed is found from the destination path (<root>/cache/...).
+pub fn install_inproc_rsync() {
+    static ONCE: Once = Once::new();
+    ONCE.call_once(|| {
+        routinator::verif::set_rsync_override(Some(std::sync::Arc::new(|source: &str, dest: &Path| {
+            let root = dest.ancestors().find(|p| p.join("pub").is_dir() && p.join("fail").is_dir());
+            match root {
+                Some(root) => fake_rsync(&[root.to_string_lossy().into_owned(), source.to_string(),
+                                           dest.to_string_lossy().into_owned()]),
+                None => 12,
+            }
+        })));
+    });
+}
+
 impl TestBed {
+    /// A bed whose rsync fetches run in-process (fast; hook H10).
     pub fn new() -> Self {
+        install_inproc_rsync();
+        Self::new_spawning()
+    }
+
+    /// A bed without installing the in-process rsync: unless another bed of
+    /// this process installed it, routinator spawns the harness binary as its
+    /// rsync command.
+    pub fn new_spawning() -> Self {
         init_process();
-        let base = std::env::var("VERIF_TMP").map(PathBuf::from).unwrap_or_else(|_| std::env::temp_dir());
+        // tmpfs if there is one: the beds are created and wiped thousands of times
+        let base = std::env::var("VERIF_TMP").map(PathBuf::from).unwrap_or_else(|_| {
+            let shm = PathBuf::from("/dev/shm");
+            if shm.is_dir() { shm.join("vh-beds") } else { std::env::temp_dir() }
+        });
         std::fs::create_dir_all(&base).ok();
         let dir = tempfile::Builder::new().prefix("vh-bed-").tempdir_in(base).expect("tempdir");
         let root = dir.path().to_path_buf();
